@@ -111,9 +111,9 @@ def sq(v):
     return v * v
 
 
-def body_kmu(n1d, Nk, mu_free, poles, fourier, nthread, k0_zero):
+def body_kmu(n1d, Nk, mu_free, poles, fourier, nthread, k0_zero, ambient=None):
     c = ctx()
-    case = dict(kind='kmu', n1d=n1d, Nk=Nk, mu_free=mu_free, poles=list(poles), fourier=fourier, nthread=nthread, k0_zero=k0_zero)
+    case = dict(kind='kmu', n1d=n1d, Nk=Nk, mu_free=mu_free, poles=list(poles), fourier=fourier, nthread=nthread, k0_zero=k0_zero, ambient=ambient)
     c.extra['case'] = case
     c.extra['keyprefix'] = 'kmu:'
     c.log_access = True
@@ -135,6 +135,9 @@ def body_kmu(n1d, Nk, mu_free, poles, fourier, nthread, k0_zero):
     W = common.sym_array('P', (n1d, n1d, kz), 'f4')
     L = 2.0 * real_np.pi if fourier else float(n1d)
     rebind.NB.reset(max(nthread, 1))
+    if ambient:
+        # numba's thread count is global state: an earlier call of the package may have left fewer threads in force
+        rebind.NB._nthreads = ambient
     parr = arrays.as_sarr(real_np.array(list(poles), dtype=real_np.int64))
     out = R.bin_kmu(n1d, L, kedges, muedges, W, poles=parr, dtype=arrays.T('f4'), fourier=fourier, nthread=nthread)
     wc, cnt, wpoles, cpoles, wk = out
@@ -197,9 +200,9 @@ def body_kmu(n1d, Nk, mu_free, poles, fourier, nthread, k0_zero):
                 ok = c.prove(gotp == 0, 'empty k bins stay zero', key='kmu:pole') and ok
 
 
-def body_kppi(n1d, Nk, Npi, fourier, nthread, k0_zero):
+def body_kppi(n1d, Nk, Npi, fourier, nthread, k0_zero, ambient=None):
     c = ctx()
-    case = dict(kind='kppi', n1d=n1d, Nk=Nk, Npi=Npi, fourier=fourier, nthread=nthread, k0_zero=k0_zero)
+    case = dict(kind='kppi', n1d=n1d, Nk=Nk, Npi=Npi, fourier=fourier, nthread=nthread, k0_zero=k0_zero, ambient=ambient)
     c.extra['case'] = case
     c.extra['keyprefix'] = 'kppi:'
     c.log_access = True
@@ -220,6 +223,9 @@ def body_kppi(n1d, Nk, Npi, fourier, nthread, k0_zero):
     W = common.sym_array('P', (n1d, n1d, kz), 'f4')
     L = 2.0 * real_np.pi if fourier else float(n1d)
     rebind.NB.reset(max(nthread, 1))
+    if ambient:
+        # numba's thread count is global state: an earlier call of the package may have left fewer threads in force
+        rebind.NB._nthreads = ambient
     wc, cnt = R.bin_kppi(n1d, L, kedges, pimax, Npi, W, dtype=arrays.T('f4'), fourier=fourier, nthread=nthread)
     ke2 = [sq(core.lift(x)) if isinstance(x, Sym) else x * x for x in common.cells(kedges)]
     pe2 = [sq(pimax * fractions.Fraction(t, Npi)) if t else 0 for t in range(Npi + 1)]
@@ -289,6 +295,8 @@ def items(tier, seed):
                 (4, False, 2, 1, False, ()), (3, True, 1, 3, False, ()), (2, True, 3, 2, True, (0, 2, 4))]
         kppi += [(3, True, 1, 2, 2), (4, True, 2, 1, 1), (4, True, 1, 2, 2), (3, True, 3, 1, 2), (3, True, 1, 3, 1)]
     out = []
+    out.append(dict(name='kmu/n=3/F=1/t=2/Nk=1/mu=0/poles=0-2/ambient=1', kind='kmu', n1d=3, Nk=1, mu_free=False, poles=(0, 2), fourier=True, nthread=2, k0=False, ambient=1))
+    out.append(dict(name='kppi/n=3/F=1/t=2/Nk=1/Npi=1/ambient=1', kind='kppi', n1d=3, Nk=1, Npi=1, fourier=True, nthread=2, k0=False, ambient=1))
     for n, F, t, Nk, mu, poles in kmu:
         out.append(dict(name=f'kmu/n={n}/F={int(F)}/t={t}/Nk={Nk}/mu={int(mu)}/poles={"-".join(map(str, poles)) or "none"}', kind='kmu', n1d=n, Nk=Nk, mu_free=mu,
                         poles=poles, fourier=F, nthread=t, k0=False))
@@ -300,8 +308,8 @@ def items(tier, seed):
 def run(item):
     if item['kind'] == 'kmu':
         return common.run_paths(lambda: body_kmu(item['n1d'], item['Nk'], item['mu_free'], tuple(item['poles']), item['fourier'],
-                                                 item['nthread'], item['k0']), cov_funcs=FUNCS, max_paths=50000)[0]
-    return common.run_paths(lambda: body_kppi(item['n1d'], item['Nk'], item['Npi'], item['fourier'], item['nthread'], item['k0']),
+                                                 item['nthread'], item['k0'], item.get('ambient')), cov_funcs=FUNCS, max_paths=50000)[0]
+    return common.run_paths(lambda: body_kppi(item['n1d'], item['Nk'], item['Npi'], item['fourier'], item['nthread'], item['k0'], item.get('ambient')),
                             cov_funcs=FUNCS, max_paths=50000)[0]
 
 
@@ -390,6 +398,9 @@ def brute(xe, ye, xfun, yfun):
     return cnt, tot
 for mode in ('py_func', 'compiled'):
     try:
+        if case.get('ambient'):
+            import numba
+            numba.set_num_threads(min(case['ambient'], numba.config.NUMBA_NUM_THREADS))     # what an earlier call left in force
         if case['kind'] == 'kmu':
             mued = np.array([0.0, fl(m.get('muedges[1]', 0.5)), 1.0]) if case['mu_free'] else np.array([0.0, 1.0])
             f = ps.bin_kmu if mode == 'compiled' else ps.bin_kmu.py_func
